@@ -712,7 +712,7 @@ func pureIntercept(fn *ssa.Function) bool {
 	case "fmt.Sprintf", "fmt.Sprint", "fmt.Sprintln", "fmt.Errorf",
 		"github.com/goblimey/go-crc24q/crc24q.Hash", "encoding/hex.Dump",
 		"strings.Contains", "strings.HasPrefix",
-		"(time.Time).In", "(time.Time).UTC", "(time.Time).Add", "(time.Time).Sub", "(time.Time).AddDate",
+		"(time.Time).In", "(time.Time).UTC", "(time.Time).Zone", "(time.Time).Location", "(time.Time).Add", "(time.Time).Sub", "(time.Time).AddDate",
 		"(time.Time).Weekday", "(time.Time).Format", "(time.Time).Equal", "(time.Time).Before",
 		"(time.Time).After", "(time.Time).IsZero", "(time.Duration).Milliseconds":
 		return true
@@ -883,7 +883,7 @@ func (m *Machine) mergeVal(c *Term, a, b value) (value, bool) {
 		}
 	case timeVal:
 		if y, ok := b.(timeVal); ok {
-			return timeVal{m.st().Ite(c, x.ns, y.ns)}, true
+			return timeVal{ns: m.st().Ite(c, x.ns, y.ns)}, true
 		}
 	case iface:
 		if y, ok := b.(iface); ok && x.t == nil && y.t == nil {
